@@ -26,7 +26,7 @@ RECURSIVE RGS(_, _)
 MaxOf(s) == IF s = <<>> THEN -1 ELSE LET S == {s[i] : i \in DOMAIN s} IN CHOOSE x \in S : \A y \in S : y <= x
 RGS(n, s) == IF Len(s) = n THEN {s} ELSE UNION {RGS(n, Append(s, b)) : b \in 0 .. MaxOf(s) + 1}
 Blocks(n, r) == {{v \in 0 .. n - 1 : r[v + 1] = b} : b \in {r[i] : i \in DOMAIN r}}
-ConnParts(h, w) == {r \in RGS(h * w, <<>>) : \A B \in Blocks(h * w, r) : Connected(GridGraph(h, w), B)}
+ConnParts(h, w) == {r \in AllRGS(h * w) : \A B \in Blocks(h * w, r) : Connected(GridGraph(h, w), B)}
 RoomBoards == IF Quick THEN {<<1, 1>>, <<1, 3>>, <<3, 1>>, <<2, 2>>, <<2, 3>>} ELSE {<<1, 1>>, <<1, 2>>, <<2, 1>>, <<1, 3>>, <<3, 1>>, <<1, 4>>, <<2, 2>>, <<2, 3>>, <<3, 2>>, <<3, 3>>}
 RoomCases(m) == UNION {{[mod |-> m, h |-> bd[1], w |-> bd[2], rgs |-> r, vals |-> <<>>] : r \in ConnParts(bd[1], bd[2])} : bd \in RoomBoards}
 ValsFor(k, j) == [i \in 1 .. k |-> <<-1, 0, 17, 3, 255>>[((i + j) % 5) + 1]]
